@@ -47,12 +47,24 @@ def fresh_solo_tables():
             return None, Result("C12.SOLO-ORDER", "ground", INCONCLUSIVE, detail="reference table could not be computed: " + p.stderr[-300:])
         tabs.append(json.loads(line[0][5:]))
     diff = [k for k in tabs[0] if tabs[0][k] != tabs[1][k]]
+    # string-hash seed: the constant-scorer streams of two fresh processes with different PYTHONHASHSEED
+    seeds = []
+    for seed in ("0", "12345"):
+        p = subprocess.run([PY, "-c", "import json, vq.harness.h_pure as P; print('TABLE' + json.dumps(P.dummy_table()))"],
+                           env=dict(env, PYTHONHASHSEED=seed), capture_output=True, text=True, cwd=VERIF)
+        line = [l for l in p.stdout.split("\n") if l.startswith("TABLE")]
+        seeds.append(json.loads(line[0][5:]) if line else None)
+    if None not in seeds:
+        for k in seeds[0]:
+            if seeds[0][k] != seeds[1][k]:
+                diff.append("constant-scorer stream of %r under PYTHONHASHSEED 0 vs 12345" % k)
+                tabs[0][diff[-1]], tabs[1][diff[-1]] = seeds[0][k][1:], seeds[1][k][1:]
     fd, path = tempfile.mkstemp(prefix="vq-solo-", suffix=".json")
     with os.fdopen(fd, "w") as f:
         json.dump(tabs[0], f)
     # a key's first occurrence in a fresh process: forward table for the first pool entries, reverse table for the last
     res = Result("C12.SOLO-ORDER", "ground", HOLDS if not diff else VIOLATED, seconds=time.time() - t,
-                 bounds="{} (text, reference time, latent, depth) combinations, each computed in two fresh processes in opposite orders".format(len(tabs[0])),
+                 bounds="{} (text, reference time, latent, depth) combinations, each computed in two fresh processes in opposite orders; 4 constant-scorer streams in two fresh processes with different PYTHONHASHSEED".format(len(tabs[0])),
                  detail="identical" if not diff else "result for %s depends on the calls made before it: %r vs %r" % (diff[0], tabs[0][diff[0]], tabs[1][diff[0]]),
                  functions=["ctparse.ctparse (real, fresh processes)"], replay=None if not diff else {"kernel": "reproduced", "key": diff[0]})
     return path, res
